@@ -35,6 +35,21 @@ fn v9p(sets: Vec<V9Set>) -> Vec<u8> {
 fn ipm(sets: Vec<IpfixSet>) -> Vec<u8> {
     ipfix_message(&IpfixMsg::new(sets))
 }
+/// the same from another exporter (other source id / observation domain, sequence number, clocks)
+fn v9p2(sets: Vec<V9Set>) -> Vec<u8> {
+    let mut p = V9Pkt::new(sets);
+    p.source_id = 0x0000_0001;
+    p.seq = 7;
+    p.sys_up_time = 5;
+    v9_packet(&p)
+}
+fn ipm2(sets: Vec<IpfixSet>) -> Vec<u8> {
+    let mut m = IpfixMsg::new(sets);
+    m.odid = 0;
+    m.seq = 0xffff_ffff;
+    m.export_time = 1;
+    ipfix_message(&m)
+}
 
 /// the per-instance action alphabet; `layouts` = 2 (A,B) or 3 (A,B,C)
 pub fn alphabet(inst: usize, allowed: &[u16], ids: &[u16], layouts: usize) -> Vec<ActionSpec> {
@@ -72,6 +87,12 @@ pub fn alphabet(inst: usize, allowed: &[u16], ids: &[u16], layouts: usize) -> Ve
             );
             let parts = vec![t(0), d()];
             add(format!("[T({},{},A)++D]", pn, id), parts.concat(), Some(parts), *proto, true);
+            // the statement scopes the caches to parser and protocol, not to the exporter named in the header: a
+            // definition or data from another source id / observation domain is the same parser's, same protocol's
+            add(format!("T@other-source({},{},B)", pn, id), if *proto == 9 { v9p2(vec![v9_t(*id, 1)]) } else { ipm2(vec![ip_t(*id, 1)]) }, None, *proto, true);
+            add(format!("D@other-source({},{})", pn, id), if *proto == 9 { v9p2(vec![V9Set::Data(*id, body12(salt + 3))]) } else { ipm2(vec![IpfixSet::Data(*id, body12(salt + 3))]) }, None, *proto, false);
+            let parts = vec![t(0), if *proto == 9 { v9p2(vec![V9Set::Data(*id, body12(salt + 4))]) } else { ipm2(vec![IpfixSet::Data(*id, body12(salt + 4))]) }];
+            add(format!("[T({},{},A)++D@other-source]", pn, id), parts.concat(), Some(parts), *proto, true);
         }
     }
     // V9 template flowsets carrying two template records: a copy of what may already be cached followed by a new
